@@ -69,10 +69,13 @@ def ensure_facts(config="default", repo=None, target_dir=None, verbose=False):
     if config not in CONFIGS:
         raise ExtractError("unknown configuration " + config)
     os.makedirs(os.path.join(CACHE, "facts"), exist_ok=True)
-    if not os.path.exists(DRIVER):
+    def stale():
+        src = os.path.join(DRIVER_DIR, "src", "main.rs")
+        return not os.path.exists(DRIVER) or os.path.getmtime(DRIVER) < os.path.getmtime(src)
+    if stale():
         with open(os.path.join(CACHE, "driver.lock"), "w") as lk:
             fcntl.flock(lk, fcntl.LOCK_EX)
-            if not os.path.exists(DRIVER):
+            if stale():
                 build_driver()
     key = tree_hash(repo, config)
     out = os.path.join(CACHE, "facts", "%s-%s.json" % (config, key))
